@@ -251,6 +251,10 @@ def check_encode(case, ctx):
                     if d.get(name) is None:
                         continue
                     exp = mat.arr(d[name])
+                    if getattr(inp, attr) is None:
+                        ctx.fail("C04/readers/%s/field-absent" % kind, {"spec": spec, "field": name, "encoding": tag},
+                                 "%s is absent after reading %s although the file has that column (all of its values may be missing)" % (name, tag))
+                        continue
                     got = np.asarray(getattr(inp, attr), float)
                     got = got[order_t][:, order_l][:, :, order_s]
                     if name == "cdf":
